@@ -25,6 +25,8 @@ import (
 
 	apifu "github.com/ccbrown/api-fu"
 	"github.com/ccbrown/api-fu/graphql"
+	"github.com/ccbrown/api-fu/graphql/ast"
+	"github.com/ccbrown/api-fu/graphql/parser"
 
 	"verifharness/internal/hx"
 	"verifharness/internal/rng"
@@ -328,10 +330,22 @@ func (d *doc) opVars(o *opDef) []varDecl {
 		names = append(names, n)
 	}
 	sort.Strings(names)
+	// the default of v1 differs from operation to operation: the coerced variables must be those of
+	// the CHOSEN operation
+	index := 0
+	for i := range d.ops {
+		if &d.ops[i] == o {
+			index = i
+		}
+	}
 	var out []varDecl
 	for _, n := range names {
 		if v := d.decl(n); v != nil {
-			out = append(out, *v)
+			x := *v
+			if x.name == "v1" && x.hasDef && !x.defNull {
+				x.def += index
+			}
+			out = append(out, x)
 		}
 	}
 	return out
@@ -558,6 +572,75 @@ func (d *doc) fragsSexp() sexp.Node {
 		out = append(out, sexp.L(sexp.Str(f.name), o(o(), selSetNode(f.kids))))
 	}
 	return sexp.L(out...)
+}
+
+// ---- cross-check of the abstraction: the emitted tree must have exactly the shape the real
+// ast.Inspect walks on the real parser's AST (f: *ast.Field, s: *ast.FragmentSpread, o: any other node)
+
+func shapeOfSexp(b *strings.Builder, n sexp.Node) {
+	if n.Kind != 'l' || len(n.List) == 0 || n.List[0].Kind != 'y' {
+		panic("shapeOfSexp: not a node")
+	}
+	kids := n.List[1:]
+	switch n.List[0].Sym {
+	case "o":
+		b.WriteString("o(")
+	case "f":
+		b.WriteString("f(")
+		kids = kids[1:] // the cost function description
+	case "t", "u":
+		b.WriteString("f(")
+	case "s":
+		b.WriteString("s(")
+		kids = kids[1:] // the fragment name
+	default:
+		panic("shapeOfSexp: unknown node " + n.List[0].Sym)
+	}
+	for _, k := range kids {
+		shapeOfSexp(b, k)
+	}
+	b.WriteString(")")
+}
+
+func shapeOfAST(b *strings.Builder, node ast.Node) {
+	ast.Inspect(node, func(n ast.Node) bool {
+		switch n.(type) {
+		case nil:
+			b.WriteString(")")
+		case *ast.Field:
+			b.WriteString("f(")
+		case *ast.FragmentSpread:
+			b.WriteString("s(")
+		default:
+			b.WriteString("o(")
+		}
+		return true
+	})
+}
+
+// assertShape panics (a harness bug, reported by ./check under the key "panic") when the tree handed
+// to the model is not the tree the implementation walks
+func assertShape(query string, ops, frags sexp.Node) {
+	parsed, errs := parser.ParseDocument([]byte(query))
+	if len(errs) > 0 {
+		panic("generated document does not parse: " + errs[0].Message + ": " + query)
+	}
+	var want, got strings.Builder
+	for _, def := range parsed.Definitions {
+		shapeOfAST(&want, def)
+		want.WriteString(";")
+	}
+	for _, op := range ops.List {
+		shapeOfSexp(&got, op.List[3])
+		got.WriteString(";")
+	}
+	for _, fr := range frags.List {
+		shapeOfSexp(&got, fr.List[1])
+		got.WriteString(";")
+	}
+	if want.String() != got.String() {
+		panic("AST shape mismatch for " + query + "\n impl:  " + want.String() + "\n model: " + got.String())
+	}
 }
 
 // ---------------------------------------------------------------------------------------------
@@ -1083,6 +1166,7 @@ func pickLimit(r *rng.R, a0 int) int {
 
 func directCase(d *doc, opName string, vars map[string]interface{}, dc graphql.FieldCost, limit func(a0 int) int) sexp.Node {
 	q := d.text()
+	assertShape(q, d.opsSexp(), d.fragsSexp())
 	var observed sexp.Node
 	max := -1
 	func() {
@@ -1693,6 +1777,7 @@ func apiCase(r *rng.R, apis []*apiUnderTest, dcs []graphql.FieldCost) sexp.Node 
 	which := r.Intn(len(apis))
 	a := apis[which]
 	q := d.text()
+	assertShape(q, d.opsSexp(), d.fragsSexp())
 	route := "apifu"
 	if r.Chance(1, 6) {
 		route = "apifu-ws"
